@@ -243,19 +243,22 @@ func c16(w *core.World, rep *core.Report) {
 		}
 		return base(fn, ord)
 	}
-	w.Cx.MaxVisits = 12
-	maxM, maxR := 3, 2
+	maxM, maxR, maxS := 3, 2, 3
+	if rep.Tier == "thorough" {
+		maxM, maxR, maxS = 4, 3, 4
+	}
+	w.Cx.MaxVisits = 3*maxR + 6
 	RunJobs(w, rep, pcoJobs(w, rep, maxM, maxR))
-	w.Cx.MaxVisits = 11
+	w.Cx.MaxVisits = 3*maxS + 2
 	w.Cx.UnwindDrop = true
 	RunJobs(w, rep, []Job{pcoSubsetJob(w)})
 	w.Cx.UnwindDrop = false
 	w.Cx.Loops = base
 	rep.Bounded = append(rep.Bounded,
 		core.Bounded{Function: "(*nasConvert.ProtocolConfigurationOptions).Marshal", Bound: fmt.Sprintf("lists of 0..%d units (identifiers, lengths, contents symbolic)", maxM)},
-		core.Bounded{Function: "(*nasConvert.ProtocolConfigurationOptions).UnMarshal contents-from-input", Bound: "arbitrary byte strings (symbolic octets, symbolic length up to 2^20) that parse into at most 3 units; paths with more loop iterations are not explored"},
+		core.Bounded{Function: "(*nasConvert.ProtocolConfigurationOptions).UnMarshal contents-from-input", Bound: fmt.Sprintf("arbitrary byte strings (symbolic octets, symbolic length up to 2^20) that parse into at most %d units; paths with more loop iterations are not explored", maxS)},
 		core.Bounded{Function: "(*nasConvert.ProtocolConfigurationOptions).UnMarshal round trip", Bound: fmt.Sprintf("serialised lists of 0..%d units; totality and termination of UnMarshal are unbounded", maxR)})
 	rep.Floor = 60
 	rep.AddUnique(&rep.Assumptions,
-		"'never yields contents that are not in the input' is decided for byte strings that parse into at most 3 units (bounded harness); beyond that the list is a slice of pointers whose content the engine does not track")
+		fmt.Sprintf("'never yields contents that are not in the input' is decided for byte strings that parse into at most %d units (bounded harness); beyond that the list is a slice of pointers whose content the engine does not track", maxS))
 }
